@@ -13,7 +13,8 @@ META = {
         'non-dict rows and the version validation precede the first write to _row/_index/_version; (D3) no internal '
         'failure -- no primitive dereferences the lazily built id index where it may still be None (after '
         'construction or slicing).  Overridden read-only mixins (__contains__, index, count, __iter__) must be the list operation on _row; answering from the id index is a violation (one row per id).  Not decided: lock-step comparison with a list as an execution.'
-        ' Also (D1): a Grid.pop override is the mixin spelled out (read at index, delete at index); removal by value is a violation.'),
+        ' Also (D1): a Grid.pop override is the mixin spelled out (read at index, delete at index); removal by value is a violation.'
+        ' Also (D1): explicit index range tests in the primitives equal the list rule -len <= i < len (decision table).'),
     'rule_text': 'obligations = 5 primitives + slice/number/else branches + mixin table + 2 refusal orders + one '
                  'nullness obligation per Grid method that touches _index',
     'trusted_base': ['collections.abc.MutableSequence mixin methods reduce to the five primitives '
@@ -24,5 +25,6 @@ META = {
 def run(ctx):
     meths = _grid.grid_methods(ctx)
     _grid.delegation(ctx, meths, 'C14.D1')
+    _grid.index_guards(ctx, meths, 'C14.D1')
     _grid.refuse_before_write(ctx, meths, 'C14.D2')
     _grid.nullness(ctx, meths, 'C14.D3')
